@@ -12,6 +12,9 @@ Families (every failure carries the event list / offsets needed to reproduce it)
     in flight: each caller gets the value of its own call.
  D  SocketRPCServer shutdown with calls in flight, after an hour of loop time: the handlers are not cancelled,
     serve() waits for them and returns.
+ I  two connections of one SocketRPCServer (real _serve_connection): garbage body / oversized header / EOF inside a
+    header or a body / cancelled serve() / reader error / unpicklable result / normal end on B while A has calls in
+    flight: A's handlers are not cancelled, A's calls get their own values, A stays usable, B does not wait for A.
  H  framing round trip: _encode_message read back by _recv_stream_message and _recv_socket_message.
  G  bursts: 70 / 150 / 300 calls in flight on one connection completed within one event-loop turn, with the send loop
     blocked in drain() by a peer that does not read, and with a free send loop: one reply per call.
@@ -162,6 +165,21 @@ async def family_c(ctx, tmp, problems):
         while len(handler.invoked) < n:
             await asyncio.sleep(0)
     await asyncio.wait_for(started(nclient * ncall), 60)
+    # a fifth peer sends an oversized header, a sixth a body that is no call: their connections fail, nobody else's
+    for junk in ((7).to_bytes(8, "big") + (2 ** 40).to_bytes(8, "big"), (7).to_bytes(8, "big") + (5).to_bytes(8, "big") + b"hello"):
+        r_, w_ = await asyncio.open_unix_connection(path)
+        w_.write(junk)
+        await w_.drain()
+        await asyncio.wait_for(r_.read(), 60)       # until the server closed that connection
+        w_.close()
+    if handler.cancelled:
+        problems.append(("multi-client:malformed-frame-of-another-peer-cancels-calls", f"handlers {handler.cancelled[:6]} "
+                         "of well-behaved clients were cancelled when another peer sent a malformed frame",
+                         {"cancelled": handler.cancelled[:20]}))
+        for t in tasks.values():
+            t.cancel()
+        stop.set()
+        return
     # client 0 vanishes with all its calls in flight
     clients[0]._writer.transport.abort()
     order = list(tasks)
@@ -347,6 +365,92 @@ async def family_h(ctx, problems, n=60):
             return
 
 
+async def family_i(ctx, problems):
+    """Several connections of ONE SocketRPCServer (built by the real SocketRPCServer._serve_connection, on in-memory
+    streams): connection A has three gated calls in flight; connection B then misbehaves or simply ends. A's handlers
+    must not be cancelled, A's calls complete with their own values, A stays usable; B ending must not wait for A."""
+    from stepup.core.rpc import SocketRPCServer
+    from .c16_driver import GatedWriter
+    faults = ["garbage-body", "oversized-header", "eof-inside-header", "eof-inside-body", "serve-cancelled",
+              "reader-error", "unpicklable-result", "close-request", "eof-at-boundary"]
+    for fault in faults:
+        handler = Handler()
+        server = SocketRPCServer(handler, "/nonexistent/c16-multi")
+        conns = {}
+        for name in "AB":
+            reader, writer = asyncio.StreamReader(), GatedWriter(gated=False)
+            conns[name] = (reader, writer, asyncio.create_task(server._serve_connection(reader, writer)))
+        await settle()
+        ra, wa, ta = conns["A"]
+        rb, wb, tb = conns["B"]
+        ra.feed_data(b"".join(request(i, "work", 100 + i) for i in (1, 2, 3)))
+        rb.feed_data(request(1, "work", 200))          # B has a call in flight as well, same call id as A
+        await settle()
+        b_normal = fault in ("close-request", "eof-at-boundary")
+        if fault == "garbage-body":
+            rb.feed_data((7).to_bytes(8, "big") + (5).to_bytes(8, "big") + b"hello")
+        elif fault == "oversized-header":
+            rb.feed_data((7).to_bytes(8, "big") + (2 ** 40).to_bytes(8, "big"))
+        elif fault == "eof-inside-header":
+            rb.feed_data(b"\x00\x00\x00")
+            rb.feed_eof()
+        elif fault == "eof-inside-body":
+            rb.feed_data(request(2, "work", 201)[:-4])
+            rb.feed_eof()
+        elif fault == "serve-cancelled":
+            tb.cancel()
+        elif fault == "reader-error":
+            rb.set_exception(OSError(5, "injected"))
+        elif fault == "unpicklable-result":
+            handler.release(200, "unpicklable")
+        elif fault == "close-request":
+            rb.feed_data((9).to_bytes(8, "big") + (0).to_bytes(8, "big"))
+        else:
+            rb.feed_eof()
+        await settle()
+        if b_normal or fault.startswith("eof-inside"):
+            handler.release(200, "ok")              # B's own call ends; nothing of B is left then
+            await settle()
+        ctx.case(("implI", fault), True)
+        wit = {"fault_on_connection_B": fault, "calls_in_flight_on_A": [1, 2, 3]}
+        cancelled_a = sorted(t for t in handler.cancelled if t in (101, 102, 103))
+        b_done = tb.done()
+        for i in (3, 1, 2):
+            handler.release(100 + i, "ok")
+        await settle()
+        replies = sorted((cid, pickle.loads(b) if b else None) for cid, b in split_messages(wa.written)[0])
+        ra.feed_data(request(4, "quick", 104))      # A is still usable
+        await settle()
+        after = [(cid, pickle.loads(b) if b else None) for cid, b in split_messages(wa.written)[0] if cid == 4]
+        if cancelled_a:
+            problems.append((f"other-connection:{fault}:cancels-calls-of-connection-A", f"after {fault} on connection B "
+                             f"the handlers {cancelled_a} of connection A were cancelled; A's replies: "
+                             f"{[(c, getattr(v, 'qualname', v)) for c, v in replies]}", wit))
+        elif replies != [(1, ("ok", 101)), (2, ("ok", 102)), (3, ("ok", 103))]:
+            problems.append((f"other-connection:{fault}:wrong-replies-on-connection-A", f"after {fault} on connection B, "
+                             f"A's calls were answered {[(c, getattr(v, 'qualname', v)) for c, v in replies]}", wit))
+        elif after != [(4, ("ok", 104))] or ta.done():
+            problems.append((f"other-connection:{fault}:connection-A-unusable", f"after {fault} on connection B, a further "
+                             f"call on A was answered {after}, A's serve() done={ta.done()}", wit))
+        elif not b_done:
+            problems.append((f"other-connection:{fault}:connection-B-waits-for-calls-of-A", f"connection B ({fault}) had "
+                             "nothing of its own left but its serve() only ended after A's calls were released", wit))
+        for r_, w_, t_ in conns.values():
+            if not r_.at_eof() and r_.exception() is None:
+                r_.feed_eof()
+        for tag, fut in list(handler.started):
+            if not fut.done():
+                fut.set_result("ok")
+        await settle()
+        for r_, w_, t_ in conns.values():
+            if not t_.done():
+                t_.cancel()
+        await settle()
+        for r_, w_, t_ in conns.values():
+            if t_.done() and not t_.cancelled():
+                t_.exception()
+
+
 def run_guarded(coro, seconds):
     """asyncio.run under a wall-clock guard (family D moves the loop clock, so no asyncio timeout around it)."""
     import threading
@@ -381,6 +485,7 @@ def run_all(ctx, tmp, deep=False):
         await guarded("A", family_a(ctx, 2500 if deep else ctx.scale(150, 1500), problems))
         await guarded("B", family_b(ctx, problems, stride=1))
         await guarded("E", family_e(ctx, problems))
+        await guarded("I", family_i(ctx, problems))
         await guarded("G", family_g(ctx, problems, (70, 150, 300, 700) if deep else (70, 150, 300)))
     run_guarded(memory(), 900)
     if problems:
